@@ -147,6 +147,53 @@ fn wf_violation(old: &T, new: &T) -> Option<String> {
     None
 }
 
+/// completeness clause of C08 on an UNAMBIGUOUS family: all children of both lists are leaves of pairwise distinct
+/// shape and the common ones occur in the same order, so every common child survives and must be carried over
+fn survivors_violation(old: &T, new: &T) -> Option<String> {
+    let (S::FnCall(oc), S::FnCall(nc)) = (old, new) else { return None };
+    let ow: Vec<u64> = (0..size(old)).map(|i| 1000 + i as u64).collect();
+    let got = match build_state_storage_patch_plan(old.clone(), new.clone()) {
+        Some(plan) => apply_state_storage_patch_plan(&ow, &plan),
+        None => ow.clone(),
+    };
+    let mut noff = 0usize;
+    for n in nc.iter() {
+        let mut ooff = 0usize;
+        for o in oc.iter() {
+            if shape_eq(o, n) {
+                let sz = size(n);
+                if got.get(noff..noff + sz) != Some(&ow[ooff..ooff + sz]) {
+                    return Some(format!("build_patches_recursive::ensures[completeness: surviving child {} (old words {}..{}) is not carried to new words {}..{}]", show(n), ooff, ooff + sz, noff, noff + sz));
+                }
+            }
+            ooff += size(o);
+        }
+        noff += size(n);
+    }
+    None
+}
+fn distinct_lists(maxlen: usize) -> Vec<Vec<T>> {
+    let pool = vec![S::Mem(1), S::Mem(2), S::Feed(1), S::Delay { len: 1 }, S::Delay { len: 2 }, S::Mem(3)];
+    let mut out: Vec<Vec<usize>> = vec![vec![]];
+    let mut frontier: Vec<Vec<usize>> = vec![vec![]];
+    for _ in 0..maxlen {
+        let mut next = vec![];
+        for l in &frontier {
+            for k in 0..pool.len() {
+                if !l.contains(&k) { let mut m = l.clone(); m.push(k); next.push(m); }
+            }
+        }
+        out.extend(next.iter().cloned());
+        frontier = next;
+    }
+    out.into_iter().map(|l| l.into_iter().map(|k| pool[k].clone()).collect()).collect()
+}
+fn same_order(a: &[T], b: &[T]) -> bool {
+    let ia: Vec<usize> = a.iter().enumerate().filter(|(_, x)| b.iter().any(|y| shape_eq(x, y))).map(|(i, _)| i).collect();
+    let pos_in_b: Vec<usize> = ia.iter().map(|&i| b.iter().position(|y| shape_eq(&a[i], y)).unwrap()).collect();
+    pos_in_b.windows(2).all(|w| w[0] < w[1])
+}
+
 fn leaves() -> Vec<T> {
     vec![S::Mem(1), S::Feed(1), S::Mem(2), S::Delay { len: 1 }, S::Mem(0)]
 }
@@ -210,6 +257,28 @@ fn main() {
             } else {
                 println!("FAILS got={got:?} expected={ex:?}");
             }
+        }
+        Some("survivors") => {
+            let (o, n) = (parse(&args[2]), parse(&args[3]));
+            match survivors_violation(&o, &n) { Some(c) => println!("FAILS {c}"), None => println!("HOLDS") }
+        }
+        Some("survivors-search") => {
+            let max: usize = args[2].parse().unwrap();
+            let lists = distinct_lists(max);
+            let mut tried = 0u64;
+            for a in &lists {
+                for b in &lists {
+                    if !same_order(a, b) { continue; }
+                    let o = S::FnCall(a.iter().cloned().map(Box::new).collect());
+                    let n = S::FnCall(b.iter().cloned().map(Box::new).collect());
+                    tried += 1;
+                    if let Some(c) = survivors_violation(&o, &n) {
+                        println!("FOUND old={} new={} clause={c} tried={tried}", show(&o), show(&n));
+                        return;
+                    }
+                }
+            }
+            println!("NONE tried={tried} lists={}", lists.len());
         }
         // bounded replay search for an input violating the executable well-formedness copy
         Some("search") => {
